@@ -15,6 +15,8 @@ package main
 //      reader hand-shake through a hook and whole sessions: see c14nostart.go
 //  (H) mouse gestures (press, motion with the button held to and beyond the screen edges, release) over random layouts:
 //      see c14mouse.go
+//  (I) jump mode: number of labels, list rows and items around each other; jump / jump-accept entered by key or POST and
+//      left by a label, another key, a resize, a click: see c14jump.go
 import (
 	"bytes"
 	"encoding/json"
@@ -217,6 +219,8 @@ func (r *c14Run) step(st c14Step) {
 		c14WaitTaken(s, r.slave, 5*time.Second)
 	case "resize":
 		s.Resize(st.X, st.Y)
+	case "settle": // eventually: what was typed has been read and the terminal has been quiet for X ms (c14jump.go); sends nothing
+		c14Settle(s, r.slave, time.Duration(st.X)*time.Millisecond, 3*time.Second)
 	case "sleep":
 		time.Sleep(time.Duration(st.X) * time.Millisecond)
 	case "sync":
@@ -1213,7 +1217,7 @@ func c14Pool(c *Ctx, cases []c14Case, par int) {
 }
 
 func runC14(c *Ctx) {
-	c.Rep.Rule = "constrain: random (count,height,scroll-off,cy,offset), non-trivial = more items than rows; life cycle: 15 option sets x 10 exit paths with random execute/ctrl-z/hide-show/resize/typing in between, non-trivial = at least one step; temp files: scenario classes x random placeholders; robustness: random input/options/sizes/keys/actions/resizes, non-trivial = non-empty input; tmux proxy: 14 exit paths x random --tmux layouts, options, stdin kinds and triggers under a private tmux server, every one non-trivial; mouse gestures: press-origin sweeps and random gestures over random layouts, non-trivial = non-empty input; distinct by JSON of the case"
+	c.Rep.Rule = "constrain: random (count,height,scroll-off,cy,offset), non-trivial = more items than rows; life cycle: 15 option sets x 10 exit paths with random execute/ctrl-z/hide-show/resize/typing in between, non-trivial = at least one step; temp files: scenario classes x random placeholders; robustness: random input/options/sizes/keys/actions/resizes, non-trivial = non-empty input; tmux proxy: 14 exit paths x random --tmux layouts, options, stdin kinds and triggers under a private tmux server, every one non-trivial; mouse gestures: press-origin sweeps and random gestures over random layouts, non-trivial = non-empty input; jump mode: number of labels, list rows and items around each other, jump / jump-accept entered by key or POST and left by a label / another key / a resize / a click, non-trivial = non-empty input; distinct by JSON of the case"
 	if c.Replay != "" {
 		var cs c14Case
 		b, err := os.ReadFile(c.Replay)
@@ -1301,6 +1305,12 @@ func runC14(c *Ctx) {
 		cases = append(cases, c14GenMouse(c.Rng, i))
 	}
 	c14MouseModel(c, c.N(200, 5000))
+	// (I) jump mode: labels x visible rows x items around each other (c14jump.go); generated after everything else
+	nj := c.N(60, 1500)
+	for i := 0; i < nj; i++ {
+		cases = append(cases, c14GenJump(c.Rng, i))
+	}
+	c14JumpModel(c, c.N(300, 5000))
 	if only := os.Getenv("C14_ONLY"); only != "" { // debugging aid: restrict the session cases to one kind
 		kept := []c14Case{}
 		for _, cs := range cases {
